@@ -108,7 +108,8 @@ class FakeNode:
             return ok({"key": list(k), "generation": g, "string": p.get("string")})
         if m == "listsendpays":
             with self.lock:
-                ps = [dict(x) for x in self.parts if x["payment_hash"] == p.get("payment_hash") and (p.get("status") in (None, x["status"]))]
+                ps = [{k: v for k, v in x.items() if not k.startswith("_")} for x in self.parts
+                      if x["payment_hash"] == p.get("payment_hash") and (p.get("status") in (None, x["status"]))]
             return ok({"payments": ps})
         if m == "pay":
             if self.pay_mode.startswith("complete:"):
@@ -120,6 +121,17 @@ class FakeNode:
         if m == "waitsendpay":
             with self.lock:
                 known = [x for x in self.parts if x["payment_hash"] == p.get("payment_hash") and x.get("partid") == p.get("partid")]
+            if known and known[0]["status"] == "pending" and "_fate" in known[0]:
+                # the part resolves after a delay: ("code", n, seconds) or ("complete", preimage hex, seconds)
+                kind, val, delay = known[0]["_fate"]
+                time.sleep(delay)
+                if kind == "code":
+                    with self.lock:
+                        known[0]["status"] = "failed"
+                    return err(val, "part failed")
+                with self.lock:
+                    known[0]["status"] = "complete"; known[0]["payment_preimage"] = val
+                return ok({k: v for k, v in known[0].items() if not k.startswith("_")})
             if known and known[0]["status"] == "pending":
                 # a part that stays in flight: the call does not return (until the test ends)
                 self.release.wait(30)
@@ -528,6 +540,49 @@ def iso_check(seed, tier, wd):
         for l in recs:
             f.write(json.dumps(l) + "\n")
     rc, out = run.tlc_trace("E2eTrace.tla", "E2eTrace.cfg", tf, wd + "/e2ei")
+    if "No error has been found" not in out:
+        raise run.ToolError("E2eTrace failed:\n" + out[-2000:])
+    viol = [(runno, text, recs[runno - 1]) for runno, text in run.tagged(out, "E2EVIOL")]
+    return {"runs": len(recs), "violations": viol}
+
+
+def codes_check(seed, tier, wd):
+    """C15 on the real binary (the part-level error codes travel through the real rpc.rs): payment A was interrupted
+    with two parts in flight; after the restart one of them fails with a documented part-level code while the other is
+    still pending and completes a little later.  The replayed HTLC must be settled with the preimage."""
+    build()
+    T = templates()
+    recs = []
+    for runno, code in enumerate((202, 203, 204, 208, 209), 1):
+        pl = Plugin(options={OPT[k]: v for k, v in dict(DEFAULTS, mpp=5).items()}, height=1000)
+        pl.node.node_id = T["local"]
+        try:
+            preA = T["preimages"][0]
+            hA = hashlib.sha256(bytes.fromhex(preA)).hexdigest()
+            pl.node.store[("trampoline", "payments", hA, "state")] = (json.dumps({"Pending": {"attempt_id": "1", "attempt_time_seconds": int(time.time())}}), 0)
+            pl.node.store[("trampoline", "payments", hA, "attempts", "1")] = (json.dumps({"amount_msat": T["A"], "bolt11": "x", "completed": False, "success": False}), 0)
+            base = {"groupid": 1, "payment_hash": hA, "status": "pending", "amount_sent_msat": 1, "created_at": 1}
+            pl.node.parts = [dict(base, created_index=1, id=1, partid=1, _fate=("code", code, 0.1)),
+                             dict(base, created_index=2, id=2, partid=2, _fate=("complete", preA, 0.5))]
+            pl.node.pay_mode = "fail"
+            if pl.handshake() != "ok":
+                raise run.ToolError("real binary did not start for the part-code scenario")
+            A = T["A"]; need = A + A * 5000 // 10**6
+            pl.send(patched(T["ok"], "A1", 1, need, need, 1000 + 34 + 1008 + 500, 70000))
+            fr = pl.read_frames(lambda f: any(ok and o.get("id") == "A1" for ok, o in f), 4.0)
+            recs.append({"ev": "e2e", "run": runno, "sent": ['"A1"'], "leftover": pl.leftover(), "code": code,
+                         "expect": [{"id": '"A1"', "result": "resolve"}],
+                         "frames": [{"json": ok, "id": json.dumps(o.get("id")) if ok and "id" in o else "none",
+                                     "kind": ("result" if ok and "result" in o else "error" if ok and "error" in o else "notification" if ok and "method" in o else "garbage"),
+                                     "result": (o.get("result", {}).get("result", "") if ok and isinstance(o.get("result"), dict) else "")}
+                                    for ok, o in fr if not (ok and o.get("method") == "log")]})
+        finally:
+            pl.close()
+    tf = wd + "/e2e_codes.ndjson"
+    with open(tf, "w") as f:
+        for l in recs:
+            f.write(json.dumps(l) + "\n")
+    rc, out = run.tlc_trace("E2eTrace.tla", "E2eTrace.cfg", tf, wd + "/e2ec")
     if "No error has been found" not in out:
         raise run.ToolError("E2eTrace failed:\n" + out[-2000:])
     viol = [(runno, text, recs[runno - 1]) for runno, text in run.tagged(out, "E2EVIOL")]
